@@ -228,6 +228,12 @@ def run_rest(ctx, PM, f, FLAG):
         ctx.floor("C12.6 obligations taken from the version gate", n6, 1)
     except CheckerError as e:
         ctx.ob("C12.6", "version-gate", "the version gate of the parser could be evaluated", False, PM.file, str(e))
+    # ---- C12.7 a connection that stays open goes on being served after a request whose body was not read: the drain takes exactly the bytes
+    # owed, not the start of the next request (rules of C09.2)
+    import drain_rules as DR
+    sk = shared.size_key_of(facts, ER)
+    ctx.require(sk is not None, "C12.7: remaining-size field of the length-limited reader")
+    DR.owed_rules(ctx, "C12.7", ER, (1, "*") + sk)
     return {}
 
 
